@@ -6,6 +6,8 @@ separate SMT query `assumptions /\\ path condition /\\ not goal`.
 import sys
 import z3
 from sorts import *
+
+PTYPE = z3.Function('ptype', Addr, z3.IntSort())
 from typesys import TS
 import ir as IR
 
@@ -60,6 +62,7 @@ class State:
         s.ptr_lo = dict(getattr(self, 'ptr_lo', None) or {})
         s.env_epoch = getattr(self, 'env_epoch', 0)
         s.escaped = set(getattr(self, 'escaped', ()) or ())
+        s.ptyped = set(getattr(self, 'ptyped', ()) or ())
         s.arrdefs = set(getattr(self, 'arrdefs', None) or ())
         s.loop_mark = getattr(self, 'loop_mark', 0)
         s.held = getattr(self, 'held', ())
@@ -160,6 +163,74 @@ class Exec:
         st.pc.append(z3.And(Addr.aid(term) >= lo, Addr.aid(term) < self.GLOBAL_BASE, z3.Implies(Addr.aid(term) == 0, term == NIL)))
         return PAddr(base=term, lo=lo)
 
+    # ---- static types of addresses (Go's type safety) ----------------------------------------------------------
+    # ptype(a) = code of the Go type of the variable that address a denotes.  Facts are added where the program itself
+    # forms a typed address (field / element selection from a typed base, allocation, conversion from unsafe.Pointer);
+    # quantifiers of the specification over pointers of type *T range over the addresses with ptype = T.  This is the
+    # language's memory safety, plus the assumption that every unsafe.Pointer -> *T conversion in the table layer
+    # converts back a pointer that was a *T (DESIGN.md assumption register).  Only addresses inside the structs of
+    # package xsync are typed (the table layer is where distinct structures share one memory sort).
+    _TYPE_CODES = {}
+
+    def type_code(self, tname):
+        tc = Exec._TYPE_CODES
+        if tname not in tc:
+            tc[tname] = len(tc) + 1
+        return tc[tname]
+
+    def typed_struct(self, tname):
+        if not isinstance(tname, str):
+            return False
+        try:
+            nm = self.prog.ty(tname).get('name') or tname
+        except Exception:
+            nm = tname
+        return 'internal/xsync.' in str(nm) or 'internal/xsync.' in tname
+
+    def ptype_fact(self, term, tname, depth=0):
+        """term denotes a variable of type tname; a struct variable's fields are variables of their types (nested
+        structs followed, arrays and pointers not)."""
+        facts = [PTYPE(term) == z3.IntVal(self.type_code(self.canon_type(tname)))]
+        try:
+            r = self.ts.rep(tname)
+            if r[0] == 'struct' and depth < 4:
+                for i, (fn, ft) in enumerate(r[1]):
+                    sub = Addr.mkaddr(Addr.aid(term), Path.pcons(z3.BitVecVal(i, 64), Addr.apath(term)))
+                    if self.ts.rep(ft)[0] == 'struct':
+                        facts.append(self.ptype_fact(sub, ft, depth + 1))
+                    else:
+                        facts.append(PTYPE(sub) == z3.IntVal(self.type_code(self.canon_type(ft))))
+        except Exception:
+            pass
+        return z3.And(*facts) if len(facts) > 1 else facts[0]
+
+    def canon_type(self, tname):
+        try:
+            ty = self.prog.ty(tname)
+            nm = ty.get('name')
+            if nm:
+                return str(nm)
+        except Exception:
+            pass
+        return str(tname)
+
+    def assume_ptype(self, st, p, tname, maybe_nil=False):
+        if getattr(self, 'no_ptype', False):
+            return
+        try:
+            term = p.term() if isinstance(p, PAddr) else p
+            key = (term.get_id(), self.canon_type(tname))
+            seen = getattr(st, 'ptyped', None)
+            if seen is None:
+                seen = st.ptyped = set()
+            if key in seen:
+                return
+            seen.add(key)
+            f = self.ptype_fact(term, tname)
+            st.pc.append(z3.Or(term == NIL, f) if maybe_nil else f)
+        except Exception:
+            pass
+
     def zero(self, t):
         r = self.ts.rep(t)
         k = r[0]
@@ -225,6 +296,20 @@ class Exec:
             cell[1] = keep
 
     def load_leaf(self, st, sort, p):
+        if p.cid is not None and p.cid >= 10 ** 9:
+            # package-level variable that no function other than init stores to: its value survives every havoc
+            cc = getattr(self, 'const_cells', {}).get((str(sort), p.cid))
+            if cc:
+                res = None
+                for (q, v) in cc:
+                    if addr_same(p, q):
+                        return v
+                cands = [(q, v) for (q, v) in cc if not addr_distinct(p, q)]
+                if cands:
+                    res = z3.Select(self._memcell(st, sort)[0], p.term())
+                    for (q, v) in cands:
+                        res = z3.If(p.term() == q.term(), v, res)
+                    return res
         cell = self._memcell(st, sort)
         ws = cell[1]
         i = len(ws) - 1
@@ -521,6 +606,13 @@ class Exec:
                             fr.names[x['name']] = (x['x']['n'],)
                     except (EngineError, KeyError):
                         continue
+        # remember the initial values of the never-written package-level variables
+        cc = {}
+        for key, cell in getattr(st, 'mem', {}).items():
+            for (q, v) in cell[1]:
+                if q.cid is not None and q.cid >= 10 ** 9:
+                    cc.setdefault((key if isinstance(key, str) else str(key), q.cid), []).append((q, v))
+        self.const_cells = cc
 
     def operand(self, fr, o, st):
         k = o['k']
@@ -985,6 +1077,15 @@ class Exec:
 
     def i_Alloc(self, fr, ins, st):
         p = self.alloc(st, ins['elem'])
+        if self.typed_struct(ins['elem']):
+            self.assume_ptype(st, p, ins['elem'])
+            try:
+                # ghost rule (coupling.py): a newly allocated bucket is owned by no table
+                if self.spec is not None and 'tbl' in self.spec.ghost_decl and self.canon_type(ins['elem']).split('.')[-1].split('[')[0] in ('bucketPadded', 'bucketOfPadded'):
+                    tbl = self.spec.ghost_get(self, st, 'tbl').x
+                    st.ghost['tbl'] = z3.Store(tbl, p.term(), NIL)
+            except Exception:
+                pass
         self.setreg(fr, ins, V(ins['type'], p))
 
     def i_Store(self, fr, ins, st):
@@ -1008,6 +1109,10 @@ class Exec:
             info = getattr(fr, 'addrinfo', {}).get(reg) if reg else None
             if info is not None and info[0] in ('bucket', 'bucketOf') and not isinstance(v, tuple) and not isinstance(v.x, list):
                 import coupling
+                lg = coupling.lane_goal(self, st, info, a.x, self.term(v)) if not getattr(self, 'dry', 0) else None
+                if lg is not None:
+                    self.oblige(st, '%s/%s/store.%s@L%s' % ('+'.join(lg[2]), self.short_fn(), lg[0], self.line(ins)), lg[1],
+                                tags=lg[2], kind='discipline')
                 coupling.on_store(self.spec, self, st, info, a.x, self.term(v))
         if isinstance(a.x, PAddr) and ins.get('op') == 'Store':
             self.on_access(st, 'plain-store', a.x, ins, fr, ins['addr'].get('n'))
@@ -1200,6 +1305,12 @@ class Exec:
             self.setreg(fr, ins, V(t, r))
         elif rs[0] == 'addr' and rd[0] == 'addr':
             self.setreg(fr, ins, V(t, x.x))
+            try:
+                ut = self.prog.under(t)[1]
+                if ut.get('kind') == 'pointer' and self.typed_struct(ut['elem']) and isinstance(x.x, PAddr):
+                    self.assume_ptype(st, x.x, ut['elem'], maybe_nil=True)
+            except Exception:
+                pass
         elif rs[0] == 'addr' and rd[0] == 'bv':
             f = z3.Function('ptr2uint', Addr, BV64)
             self.setreg(fr, ins, V(t, f(self.term(x))))
@@ -1263,6 +1374,9 @@ class Exec:
             pt = self.prog.under(ins['x']['t'])[1]
             stn = pt['elem']
             r = self.ts.rep(stn)
+            if self.typed_struct(stn) and isinstance(x.x, PAddr):
+                self.assume_ptype(st, x.x, stn)
+                self.assume_ptype(st, x.x.ext(ins['field']), r[1][ins['field']][1])
             info = getattr(fr, 'addrinfo', None)
             if info is None:
                 info = fr.addrinfo = {}
@@ -1289,6 +1403,12 @@ class Exec:
             base, ln = x.x[0].x, x.x[1].x
             self.bounds(st, i64, ln, ins)
             self.setreg(fr, ins, V(ins['type'], base.ext(self.selc(i64))))
+            try:
+                et = self.prog.under(ins['type'])[1]['elem']
+                if self.typed_struct(et) and isinstance(base, PAddr):
+                    self.assume_ptype(st, base.ext(self.selc(i64)), et)
+            except Exception:
+                pass
         else:
             # pointer to array
             et = self.prog.under(x.t)[1]['elem']
@@ -1299,6 +1419,11 @@ class Exec:
             info = getattr(fr, 'addrinfo', None)
             if info and ins['x'].get('n') in info:
                 info[ins['name']] = info[ins['x']['n']]
+                try:
+                    if any(k[0] == x.x.term().get_id() for k in getattr(st, 'ptyped', ())):
+                        self.assume_ptype(st, x.x.ext(self.selc(i64)), self.ts.rep(et)[1])
+                except Exception:
+                    pass
 
     def selc(self, bv):
         s = z3.simplify(bv)
